@@ -74,6 +74,12 @@ GP gen_gp(Rng& g, bool valid_only)
         p.rr = p.R0 * g.uniform(0.0, 0.99);
     if (!valid_only && g.chance(0.04))
         std::swap(p.R0, p.Rmax); // R0 >= Rmax must be rejected
+    if (!valid_only && g.chance(0.05)) {
+        // an annulus so thin that neighbouring nodes collapse in double precision: rejected, or strictly increasing radii
+        p.R0   = 1.0;
+        p.Rmax = 1.0 + std::pow(10.0, -(double)g.range(9, 15));
+        p.rr   = p.R0;
+    }
     return p;
 }
 
@@ -138,11 +144,13 @@ Value gen(uint64_t seed, const std::string& tier)
 {
     Rng g(sim::mix(seed, 0xC18));
     Value p   = Value::object();
-    int mode  = (int)g.below(12); // 10,11: user-supplied (explicit) grids through files into setup()
+    int mode  = (int)g.below(13); // 10,11: user-supplied (explicit) grids through files into setup(); 12: mutated vectors
     // 0-3 parameter space (incl. invalid), 4 fault-free round trip, 5 write fault, 6 durable edit, 7 read fault,
     // 8 enumerated crash points, 9 load through GMGPolar::setup
-    if (mode >= 10)
+    if (mode == 11)
         mode = 10;
+    if (mode == 12)
+        mode = 11; // user-supplied radii / angles vectors with one defect: rejected by exception, or a valid grid
     p["mode"]   = mode;
     {
         // explicit grid for mode 10: nr = 2^a * m + 1, ntheta = 2^b * q (q odd or even), so that the admissible level
@@ -172,9 +180,10 @@ Value gen(uint64_t seed, const std::string& tier)
     Value f         = Value::object();
     static const char* wf[] = {"open_fail", "write_fail", "short_write", "crash_after_write", "crash_between_files"};
     static const char* de[] = {"truncate", "tear_last_line", "delete", "empty", "flip_byte", "stale", "swap_files",
-                               "append_garbage", "nan_inf_token", "locale_comma", "keep_first_lines"};
+                               "append_garbage", "nan_inf_token", "locale_comma", "keep_first_lines", "duplicate_line",
+                               "coarse_precision"};
     static const char* rf[] = {"read_fail", "short_read", "open_fail"};
-    f["kind"]  = mode == 5 ? wf[g.below(5)] : mode == 6 ? de[g.below(11)] : mode == 7 ? rf[g.below(3)] : "none";
+    f["kind"]  = mode == 5 ? wf[g.below(5)] : mode == 6 ? de[g.below(13)] : mode == 7 ? rf[g.below(3)] : "none";
     f["file"]  = g.range(0, 1);
     f["k"]     = g.range(0, 80);
     f["bytes"] = g.range(0, 20);
@@ -342,6 +351,80 @@ void run(const Value& plan, Result& r)
         unlink(fr.c_str());
         unlink(ft.c_str());
         rmdir(dir.c_str());
+        return;
+    }
+    if (mode == 11) {
+        GridSpec e = GridSpec::from_json(plan.at("explicit"));
+        std::unique_ptr<PolarGrid> eg;
+        try {
+            eg = make_grid(e);
+        }
+        catch (const std::exception&) {
+            r.probe("explicit_grid_not_constructible");
+            return;
+        }
+        std::vector<double> rad, ang;
+        for (int i = 0; i < eg->nr(); i++)
+            rad.push_back(eg->radius(i));
+        for (int j = 0; j < eg->ntheta(); j++)
+            ang.push_back(eg->theta(j));
+        ang.push_back(2 * M_PI);
+        const long k   = f.at("k").as_int(0);
+        const double fr = f.at("frac").as_double(0.5);
+        static const char* muts[] = {"none", "repeat_radius", "swap_radii", "zero_radius", "negative_radius", "nan_radius",
+                                     "repeat_angle", "swap_angles", "no_two_pi", "first_angle_nonzero", "unpaired_angle",
+                                     "two_radii", "one_radius", "two_angles", "tiny_gap_radius"};
+        const char* mut = muts[k % 15];
+        size_t ir = 1 + (size_t)(fr * (rad.size() - 1)) % (rad.size() - 1), ia = 1 + (size_t)(fr * (ang.size() - 2)) % (ang.size() - 2);
+        std::string m = mut;
+        if (m == "repeat_radius")
+            rad[ir] = rad[ir - 1];
+        else if (m == "swap_radii")
+            std::swap(rad[ir], rad[ir - 1]);
+        else if (m == "zero_radius")
+            rad[0] = 0.0;
+        else if (m == "negative_radius")
+            rad[0] = -rad[0];
+        else if (m == "nan_radius")
+            rad[ir] = std::nan("");
+        else if (m == "repeat_angle")
+            ang[ia] = ang[ia - 1];
+        else if (m == "swap_angles")
+            std::swap(ang[ia], ang[ia - 1]);
+        else if (m == "no_two_pi")
+            ang.pop_back();
+        else if (m == "first_angle_nonzero")
+            ang[0] = 0.5 * ang[1];
+        else if (m == "unpaired_angle")
+            ang[ia] = 0.5 * (ang[ia] + ang[ia - 1]) + 1e-3 * (ang[ia] - ang[ia - 1]);
+        else if (m == "two_radii")
+            rad.resize(2);
+        else if (m == "one_radius")
+            rad.resize(1);
+        else if (m == "two_angles")
+            ang = {0.0, 2 * M_PI};
+        else if (m == "tiny_gap_radius")
+            rad[ir] = std::nextafter(rad[ir - 1], 2 * rad[ir]); // one ulp apart: strictly increasing, legal
+        r.signature  = fmt("gridfiles mode=11 vectors %dx%d mutation=%s at %zu/%zu", eg->nr(), eg->ntheta(), mut, ir, ia);
+        r.nontrivial = true;
+        r.probe(std::string("mutation:") + mut);
+        std::unique_ptr<PolarGrid> mg;
+        {
+            CoutCapture cap;
+            try {
+                mg = std::make_unique<PolarGrid>(rad, ang);
+            }
+            catch (const std::exception&) {
+                r.probe("vectors_rejected");
+                if (m == "none" || m == "tiny_gap_radius")
+                    r.fail("C18.valid_vectors_rejected", r.signature);
+                return;
+            }
+        }
+        r.probe("vectors_accepted");
+        std::string why = invalid_reason(*mg);
+        if (!why.empty())
+            r.fail("C18.invalid_vectors_accepted", why + "; " + r.signature);
         return;
     }
     /* ---- generation: accepted or rejected by exception ---- */
@@ -573,6 +656,35 @@ void run(const Value& plan, Result& r)
             for (long q = 0; q < f.at("k").as_int(0) % 5 && pos != std::string::npos; q++)
                 pos = data.find('\n', pos) == std::string::npos ? std::string::npos : data.find('\n', pos) + 1;
             spit(target, pos == std::string::npos ? data : data.substr(0, pos));
+        }
+        else if (kind == "duplicate_line") {
+            // one line overwritten by its neighbour (line count unchanged): a repeated radius / angle
+            std::vector<std::string> lines;
+            std::stringstream ss(data);
+            for (std::string l; std::getline(ss, l);)
+                lines.push_back(l);
+            if (lines.size() >= 2) {
+                size_t at = 1 + (size_t)(frac * (lines.size() - 1)) % (lines.size() - 1);
+                lines[at] = lines[at - 1];
+                std::string out;
+                for (auto& l : lines)
+                    out += l + "\n";
+                spit(target, out);
+            }
+        }
+        else if (kind == "coarse_precision") {
+            // the file rewritten by a tool that keeps 1..4 significant digits: neighbouring values may coincide
+            std::stringstream ss(data), out;
+            int digits = 1 + (int)(f.at("bytes").as_int(0) % 4);
+            for (std::string l; std::getline(ss, l);) {
+                char* end = nullptr;
+                double v  = strtod(l.c_str(), &end);
+                if (end != l.c_str())
+                    out << fmt("%.*g", digits, v) << "\n";
+                else
+                    out << l << "\n";
+            }
+            spit(target, out.str());
         }
         else if (kind == "delete")
             unlink(target.c_str());
